@@ -475,7 +475,7 @@ PROPERTIES["C13"] = {
 
 def _c09_runs(ctx):
     return [_gen_run(ctx, "widgets", "widgets", [("widgets/zz_verif_c09.go", "harness/gen/widgets/zz_verif_c09.go")], ["VerifC09Option", "VerifC09TwoOptions"]),
-            Run("nilchecks", ["./internal/zzverif/hveneers"], VENEERS_HARNESS, ["VerifC09NilChecks"], "internal/zzverif/hveneers", test_pkg_name="hveneers", needs_leaf=True)]
+            Run("nilchecks", ["./internal/zzverif/hveneers"], VENEERS_HARNESS, ["VerifC09NilChecks", "VerifC09NilChecksAcrossBuilders"], "internal/zzverif/hveneers", test_pkg_name="hveneers", needs_leaf=True)]
 
 PROPERTIES["C09"] = {
     "level_text": "Two-stage, bounded symbolic execution + SMT. Stage 1: the REAL generator emits Go types and builders for the corpus. Stage 2: every option of the generated builder is "
